@@ -36,6 +36,14 @@ fn strings() -> BoxedStrategy<String> {
     .boxed()
 }
 
+/// sizes beyond 64 KiB (and, rarely, 1 MiB): what a shell may legitimately send, far beyond what a unit test sends
+fn long_strings() -> BoxedStrategy<String> {
+    prop_oneof![6 => (65_530usize..65_545, any::<bool>()).prop_map(|(n, uni)| if uni { "é".repeat(n / 2) } else { "a".repeat(n) }), 2 => Just("b".repeat(70_001)), 1 => Just("c".repeat(1_048_577))].boxed()
+}
+fn long_bytes() -> BoxedStrategy<Vec<u8>> {
+    prop_oneof![6 => (65_520usize..65_545, any::<u8>()).prop_map(|(n, b)| vec![b; n]), 2 => Just(vec![0xa5; 70_001]), 1 => Just(vec![0; 1_048_577])].boxed()
+}
+
 fn bytes() -> BoxedStrategy<Vec<u8>> {
     prop_oneof![2 => Just(vec![]), 4 => prop::collection::vec(any::<u8>(), 1..6), 1 => prop::collection::vec(any::<u8>(), 250..400)].boxed()
 }
@@ -81,8 +89,8 @@ pub fn format(reg: &Rc<Registry>, f: &F, depth: u32) -> BoxedStrategy<V> {
         F::F32 => any::<u32>().prop_map(V::F32).boxed(),
         F::F64 => any::<u64>().prop_map(V::F64).boxed(),
         F::Char => any::<char>().prop_map(V::Char).boxed(),
-        F::Str => strings().prop_map(V::Str).boxed(),
-        F::Bytes => bytes().prop_map(V::Bytes).boxed(),
+        F::Str => prop_oneof![60 => strings(), 1 => long_strings()].prop_map(V::Str).boxed(),
+        F::Bytes => prop_oneof![40 => bytes(), 1 => long_bytes()].prop_map(V::Bytes).boxed(),
         F::Option(i) => {
             if shallow {
                 Just(V::None).boxed()
@@ -94,7 +102,9 @@ pub fn format(reg: &Rc<Registry>, f: &F, depth: u32) -> BoxedStrategy<V> {
             if shallow {
                 Just(V::Seq(vec![])).boxed()
             } else {
-                prop_oneof![1 => Just(V::Seq(vec![])), 3 => prop::collection::vec(format(reg, i, depth + 1), 1..4).prop_map(V::Seq), 1 => prop::collection::vec(format(reg, i, depth + 1), 8..12).prop_map(V::Seq)].boxed()
+                // a long sequence of a fixed-size element (u8 sequences without serde_bytes): > 64 KiB on the wire
+                let long: BoxedStrategy<V> = if matches!(**i, F::U8) { (65_520usize..70_100, any::<u8>()).prop_map(|(n, b)| V::Seq(vec![V::U(b as u128); n])).boxed() } else { prop::collection::vec(format(reg, i, depth + 1), 8..12).prop_map(V::Seq).boxed() };
+                prop_oneof![8 => Just(V::Seq(vec![])), 24 => prop::collection::vec(format(reg, i, depth + 1), 1..4).prop_map(V::Seq), 8 => prop::collection::vec(format(reg, i, depth + 1), 8..12).prop_map(V::Seq), 1 => long].boxed()
             }
         }
         // a map denotes a set of pairs with unique keys; it is generated in the canonical (sorted) order
